@@ -160,11 +160,14 @@ def impl_roundtrip(case):
     """build by add calls, dumps, loads, describe, dumps again"""
     import productmd.images as IM
     im, pool, ids = build(case)
+    accepted = {}
     for v, a, i in case["ops"]:
         try:
             im.add(v, a, pool[i])
+            accepted.setdefault(v, {}).setdefault(a, set()).add(i)
         except EXC:
             pass
+    accepted = {v: {a: sorted(s) for a, s in arches.items()} for v, arches in accepted.items()}
     placed = {v: {a: sorted(({f: getattr(o, f) for f in FIELDS} for o in cell), key=lambda d: str(d["path"]))
                   for a, cell in arches.items()} for v, arches in im.images.items()}
     try:
@@ -175,10 +178,37 @@ def impl_roundtrip(case):
     try:
         im2.loads(text)
     except EXC as e:
-        return ["ok", [text, exc_result(e)], placed]
+        return ["ok", [text, exc_result(e)], placed, accepted]
     full, comp, dump = describe(im2)
     try:
         again = ["ok", im2.dumps()]
     except EXC as e:
         again = exc_result(e)
-    return ["ok", [text, ["ok", [[full, comp, dump], again]]], placed]
+    return ["ok", [text, ["ok", [[full, comp, dump], again]]], placed, accepted]
+
+
+def impl_load_then_add(case):
+    """load an (older) images document, then add an image with the identity of a loaded one and other checksums"""
+    import productmd.images as IM
+    im = IM.Images()
+    try:
+        im.loads(json.dumps(case["doc"]))
+    except EXC as e:
+        return ["load-" + type(e).__name__]
+    version_after = im.header.version
+    out = [version_after]
+    for v in sorted(im.images):
+        for a in sorted(im.images[v]):
+            for old in sorted(im.images[v][a], key=lambda o: o.path):
+                new = IM.Image(im)
+                for f in FIELDS:
+                    setattr(new, f, copy.deepcopy(getattr(old, f)))
+                new.path = old.path + ".copy"
+                new.checksums = {"sha256": "f" * 64}
+                try:
+                    im.add(v, a, new)
+                    out.append(["accepted", v, a, old.path])
+                except EXC as e:
+                    out.append([type(e).__name__])
+                return out
+    return out
